@@ -95,9 +95,10 @@ pub fn replay(_ctx: &Ctx, case: &Value) -> Outcome {
     o
 }
 
-/// `sample_trivial`: Some(k) = the caller re-runs exhaustive TLC cases: export only results whose map has a
-/// Rewritten entry, plus every k-th of the others (all-Unmodified maps and error results, whose only C21
-/// demand "same program" is already judged by replay); None = export everything, with info events.
+/// `sample_trivial`: Some(k) = the caller re-runs exhaustive TLC cases: export every Ok result whose body has
+/// a selected invocation (so its map must have a Rewritten entry), plus every k-th of the others (bodies
+/// without selected invocation, and error results, whose only C21 demand "same program" is already judged
+/// by replay); None = export everything, with info events.
 fn emit_history(
     out: &mut dyn std::io::Write,
     defs: &[Value],
@@ -108,9 +109,10 @@ fn emit_history(
     let program = c20::build_program(defs, body);
     let b = run_both(&program, filter);
     if let Some((k, nth)) = sample_trivial {
-        let rewritten = matches!(&b.mapped, Real::Ok { map: Some(m), .. }
-            if m.as_array().map(|es| es.iter().any(|e| e["t"].get("r").is_some())).unwrap_or(false));
-        if !rewritten && nth % k.max(1) != 0 {
+        // "must have a Rewritten entry" is decided from the INPUT (the body has a selected invocation of a
+        // sequence definition), not from the real map: a map that wrongly lacks the entry is still exported
+        let expects_rewritten = matches!(&b.mapped, Real::Ok { .. }) && c20::nontrivial(defs, filter, body, &b.mapped);
+        if !expects_rewritten && nth % k.max(1) != 0 {
             return Outcome::skip();
         }
     }
@@ -150,12 +152,15 @@ pub fn drive(ctx: &Ctx) -> Summary {
     let mut sum = Summary::default();
     if ctx.mode == "C21.cases" {
         // re-run the TLC cases and export the real artefacts
+        // `cases`: one file or a comma-separated list of files
         let cases = ctx.arg_str("cases").expect("--cases");
-        let f = std::io::BufReader::new(std::fs::File::open(cases).expect("open cases"));
         let limit = ctx.arg_u64("n", u64::MAX);
         let every = ctx.arg_u64("trivial_every", 10);
         let mut seen = std::collections::HashSet::new();
-        for (k, line) in f.lines().enumerate() {
+        let lines = cases.split(',').flat_map(|path| {
+            std::io::BufReader::new(std::fs::File::open(path).unwrap_or_else(|e| panic!("open cases {path}: {e}"))).lines()
+        });
+        for (k, line) in lines.enumerate() {
             if k as u64 >= limit {
                 break;
             }
